@@ -12,6 +12,9 @@
 (*   xmlnum : 0, 1, -1, +1, 2^31-1, 2^32-1, 2^32, 2^64, "-1", "", "abc"    *)
 (*   xmlref : A0, XFE1, A1048577, A, 1, ZZZZZZZZZZ1, "A1:", A99999999999, ""*)
 (*   part   : truncate at 0, 1, 1/4, 1/2, len-1; drop the part             *)
+(*   rec    : one BIFF / BIFF12 record with a consistent length field:     *)
+(*            1 / 5 stray bytes at the end or before the last two payload  *)
+(*            bytes, 1 / 2 missing bytes, record duplicated, record dropped *)
 (* The property: whatever the script, every entry point returns Ok or Err  *)
 (* -- no panic, abort (allocation), hang or out-of-proportion resources.   *)
 (***************************************************************************)
